@@ -1070,8 +1070,8 @@ class Gen:
         k = self.lab()
         A, B, C = "MA%d" % k, "MB%d" % k, "MC%d" % k
         pf, oth = "mpf%d" % k, "moth%d" % k
-        names = names or (self.MATRIX_NAMES if full else r.sample(self.MATRIX_NAMES, r.randint(2, 3)))
-        fields = fields or (self.MATRIX_FIELDS if full else ["none"] + r.sample(self.MATRIX_FIELDS[1:], r.randint(1, 2)))
+        names = names or (self.MATRIX_NAMES if full else r.sample(self.MATRIX_NAMES, r.randint(1, 2)))
+        fields = fields or (self.MATRIX_FIELDS if full else r.sample(self.MATRIX_FIELDS, 2))
         receivers = receivers or ([B, C] if full else [r.choice([B, C])])
         receivers = [B if c == "B" else C if c == "C" else c for c in receivers]
 
@@ -1124,7 +1124,7 @@ class Gen:
                         self.stmts.append(S_setf(X, n, val))
                     forms = ["top_call", "top_value"] + inst_forms + stat_forms
                     if not full:
-                        forms = ["top_call", "super_value", "super_call"] + r.sample(forms, r.randint(2, 4))
+                        forms = ["top_call", "super_value", "super_call"] + r.sample(forms, r.randint(1, 3))
                         r.shuffle(forms)
                     for f in forms:
                         if f == "top_call":
@@ -1236,7 +1236,7 @@ class Gen:
             self.scoped_factory()
         if r.random() < 0.4:
             self.iterator_scenario()
-        if self.force_matrix or r.random() < 0.25:
+        if self.force_matrix or r.random() < 0.2:
             self.member_matrix()
         k = r.randint(8, 22 if self.big else 16)
         for _ in range(k):
@@ -1736,6 +1736,11 @@ def scale_family(ctx, ladder=None):
             d = scale_diff(p, rec)
             if d is None:
                 ctx.notes.append("scale program %s/%d (%s build) failed in the batch but passes alone (machine load)" % (p["family"], p["size"], bname))
+                continue
+            if "first_wrong_line" not in d and list(rec.result) == ["crash", "timeout"]:
+                # no wrong line was printed; the time limit alone (2 minutes for <= 4200 lines) is not evidence on a loaded machine
+                ctx.notes.append("scale program %s/%d (%s build) timed out twice (alone: 120 s): inconclusive, not reported as a violation"
+                                 % (p["family"], p["size"], bname))
                 continue
             seen.add(p["family"])
             nviol += 1
